@@ -87,14 +87,18 @@ func propC07(c *ctx) error {
 		{[][2]string{{"t", `<template :define="card-a">A</template><template :define="card-b">B</template><ul><li :range="_, k : ks" :insert="card-${k}">x</li></ul>`}}, "t", `<ul><li>A</li><li>B</li><li>A</li></ul>`, ""},
 		{[][2]string{{"t", `<template :define="card-a">A</template><template :define="card-b">B</template><p :range="_, k : ks" :replace="card-${k}">x</p>|<p :range="_, k : ks"><i :with="j := ${k}" :insert="${'card-'}${j}">x</i></p>`}}, "t", `ABA|<p><i>A</i></p><p><i>B</i></p><p><i>A</i></p>`, ""},
 		{[][2]string{{"t", `<template :define="card-a">A</template><ul><li :range="_, k : ks" :insert="card-${k}">x</li></ul>`}}, "t", "", "tplNotFound"},
+		// MANY fragment calls from one level are not nesting: 300 rows through replace and through insert
+		{[][2]string{{"t", `<template :define="row">R</template><p :range="_, k : big" :replace="row">x</p>|<i :range="_, k : big" :insert="row">x</i>`}}, "t", strings.Repeat("R", 300) + "|" + strings.Repeat("<i>R</i>", 300), ""},
 		// a recursive fragment bounded by the data (tree rendering)
 		{[][2]string{{"t", `<ul><li :range="_, n : tree" :insert="node">x</li></ul><template :define="node"><b :text="${n.name}">b</b><ul :if="${len(n.kids) > 0}"><li :range="_, n : n.kids" :insert="node">x</li></ul></template>`}}, "t",
 			`<ul><li><b>a</b><ul><li><b>a1</b></li><li><b>a2</b><ul><li><b>a2x</b></li></ul></li></ul></li><li><b>b</b></li></ul>`, ""},
 	}
+	bigN := make([]int, 300)
+	bigInts := vIntSlice(bigN...)
 	for _, t := range cases {
 		leaf := func(n string) val { return vMap(kv{"name", vStr(n)}, kv{"kids", vAnySlice()}) }
 		tree := vAnySlice(vMap(kv{"name", vStr("a")}, kv{"kids", vAnySlice(leaf("a1"), vMap(kv{"name", vStr("a2")}, kv{"kids", vAnySlice(leaf("a2x"))}))}), leaf("b"))
-		rc := &renderCase{Files: t.files, Tpl: t.tpl, Data: vMap(kv{"n", vStr("nope")}, kv{"f", vBool(false)}, kv{"bs", vAnySlice(vBool(true), vBool(false))}, kv{"tree", tree}, kv{"ks", vStrSlice("a", "b", "a")}).j}
+		rc := &renderCase{Files: t.files, Tpl: t.tpl, Data: vMap(kv{"n", vStr("nope")}, kv{"f", vBool(false)}, kv{"bs", vAnySlice(vBool(true), vBool(false))}, kv{"tree", tree}, kv{"ks", vStrSlice("a", "b", "a")}, kv{"big", bigInts}).j}
 		impl, _, err := compareRender(c, rc, true)
 		if err != nil {
 			return err
